@@ -486,6 +486,42 @@ fn c05(cfg: &CCfg, e: &Exec, f: &Facts, vs: &mut Vec<Violation>, nt: &mut bool) 
             }
         }
     }
+    // once a dispatch poll has run at t >= D+1ms (started after the request was transmitted) the
+    // call has been failed: its task has been woken (or it has already observed the outcome)
+    {
+        let mut poll_start = 0usize;
+        for (idx, r) in e.recs.iter().enumerate() {
+            match r {
+                Rec::PollStart(Task::Dispatch(_)) => poll_start = idx,
+                Rec::N("snap", sn) if sn.len() >= 5 => {
+                    let (now, running, woken) = (sn[2], sn[3], sn[4]);
+                    for (i, c) in cfg.callers.iter().enumerate() {
+                        let d_ns = c.deadline_ms as i128 * 1_000_000;
+                        if now < d_ns + 1_000_000 || running & (1 << i) == 0 || woken & (1 << i) != 0 {
+                            continue;
+                        }
+                        let Some(id) = f.id_of.get(&(i as u32)) else { continue };
+                        let transmitted_before = sent_at.get(id).map(|s| *s < poll_start).unwrap_or(false);
+                        let answered = f.read.iter().any(|(ridx, rid)| rid == id && *ridx < idx);
+                        if transmitted_before && !answered && !cancelled.contains(id) {
+                            *nt = true;
+                            v(
+                                vs,
+                                "C05-expiry-not-processed",
+                                cfg,
+                                format!(
+                                    "call {i} (deadline {}ms) was transmitted and unanswered; the dispatch was polled at t={}ms and went back to sleep without failing it",
+                                    c.deadline_ms,
+                                    now / 1_000_000
+                                ),
+                            );
+                        }
+                    }
+                }
+                _ => {}
+            }
+        }
+    }
     // after the clock passed D+1ms and the system settled, a transmitted unanswered call has resolved
     let mut cur: Option<(usize, i128)> = None;
     for (idx, r) in e.recs.iter().enumerate() {
@@ -928,6 +964,7 @@ pub fn c14(
     let mut credit = false;
     let mut closed_called = false;
     let mut sink_err = false;
+    let mut write_err = false;
     let mut unflushed = 0u32;
     let mut last_flush_pending_after_write = false;
     let mut saw_pending = false;
@@ -981,6 +1018,11 @@ pub fn c14(
                         unflushed += 1;
                         last_flush_pending_after_write = false;
                     }
+                    if *res == Res::Err {
+                        // the transport failed while writing: nothing more can be flushed (this
+                        // does not forbid later writes - rule ii names readiness/flush/close only)
+                        write_err = true;
+                    }
                 }
                 Op::Flush => match res {
                     Res::Ok => {
@@ -1006,7 +1048,7 @@ pub fn c14(
             },
             Rec::PeerSaw { .. } => {}
             Rec::S("stream_end", _) if matches!(owner, Task::Stream(_)) => {
-                if unflushed > 0 && !sink_err {
+                if unflushed > 0 && !sink_err && !write_err {
                     vs.push(mk(
                         "C14-iii-finished-unflushed",
                         format!("{owner:?} ended with {unflushed} written items neither flushed nor closed"),
@@ -1014,14 +1056,14 @@ pub fn c14(
                 }
             }
             Rec::PollEnd(t, ready) if *t == owner => {
-                if !*ready && unflushed > 0 && !last_flush_pending_after_write && !sink_err {
+                if !*ready && unflushed > 0 && !last_flush_pending_after_write && !sink_err && !write_err {
                     vs.push(mk(
                         "C14-iii-idle-unflushed",
                         format!("{owner:?} returned Pending with {unflushed} written items not flushed and no flush pending"),
                     ));
                 }
                 let terminal = *ready && !matches!(owner, Task::Stream(_));
-                if terminal && unflushed > 0 && !sink_err {
+                if terminal && unflushed > 0 && !sink_err && !write_err {
                     vs.push(mk(
                         "C14-iii-finished-unflushed",
                         format!("{owner:?} completed with {unflushed} written items neither flushed nor closed"),
@@ -1192,6 +1234,10 @@ pub fn configs(prop: CProp, tier: Tier) -> Vec<CCfg> {
                                     .map(|(i, a)| CallerCfg { sampled: i % 2 == 1, ..CallerCfg::simple(*a) })
                                     .collect();
                                 out.push(base(callers.clone(), mif, buf, *fl, *cap, alpha));
+                                if n <= 2 && mif <= 2 && buf == 1 {
+                                    // the guard's drop also runs when a call completes: park there too
+                                    out.push(base(callers.clone(), mif, buf, *fl, *cap, alpha | A_PARKPOLL));
+                                }
                                 // scripted abandonment of one caller after k polls (costs no deviation)
                                 if n <= 2 || thorough {
                                     for who in 0..n {
@@ -1309,6 +1355,24 @@ pub fn configs(prop: CProp, tier: Tier) -> Vec<CCfg> {
         }
         CProp::C14 => {
             let alpha = A_ABANDON | A_DRAIN | A_REPLY_UNOWED;
+            // fault sequences: after a reported readiness / write / flush / close failure nothing
+            // more is written (the k-th call of each sink operation fails, one-shot and sticky)
+            for (fl, cap) in [(Flavour::Always, 1usize), (Flavour::Coupled, 1), (Flavour::Indep, 1)] {
+                for n in 1..=2usize {
+                    for op in [Op::Ready, Op::Send, Op::Flush, Op::Close] {
+                        for k in 1..=(if thorough { 6 } else { 4 }) {
+                            for sticky in [false, true] {
+                                let mut callers: Vec<CallerCfg> = (0..n).map(|_| CallerCfg::simple(true)).collect();
+                                callers[n - 1].script = Script::AbandonAfter(2);
+                                callers[n - 1].answered = false;
+                                let mut c = base(callers, 2, 1, fl, cap, alpha);
+                                c.fault = Some(Fault { op, k, sticky, eof: false });
+                                out.push(c);
+                            }
+                        }
+                    }
+                }
+            }
             for (fl, cap) in [
                 (Flavour::Always, 1usize),
                 (Flavour::Coupled, 1),
